@@ -15,6 +15,10 @@ impl EventListeners {
 }
 pub struct Listener { pub id: Ghost<int> }
 #[verifier::external_body] pub fn vx_wrap<T>() -> (r: T) { unimplemented!() }
+/// `Arc::new(x)` of a user closure / object handed to a setter: the stored value is a function of x alone (so "the first one wins" or
+/// "ignored" is visible), nothing else is known about it
+pub uninterp spec fn wrapped<A, T>(a: A) -> T;
+#[verifier::external_body] pub fn vx_wrap_of<A, T>(a: A) -> (r: T) ensures r == wrapped::<A, T>(a) { unimplemented!() }
 
 // ===== health check (C18) =====
 #[derive(Clone, Copy, PartialEq, Eq, Structural)]
@@ -113,7 +117,7 @@ impl CacheConfigBuilder {
             r.max_size == self.max_size && r.ttl == self.ttl && r.key_extractor == self.key_extractor && r.event_listeners == self.event_listeners && r.name == self.name,   // #keeps_every_other_setting [C10]
     //@body CacheConfigBuilder::eviction_policy
     pub fn key_extractor<F>(self, f: F) -> (r: Self)
-        ensures r.key_extractor is Some,   // #installs_a_key_extractor [C10]
+        ensures r.key_extractor == Some(wrapped::<F, KeyExtractor>(f)),   // #the_key_extractor_in_force_is_the_one_given_last [C10]
             r.max_size == self.max_size && r.ttl == self.ttl && r.eviction_policy == self.eviction_policy && r.event_listeners == self.event_listeners && r.name == self.name,   // #keeps_every_other_setting [C10]
     //@body CacheConfigBuilder::key_extractor
     pub fn name(self, name: Name) -> (r: Self)
@@ -162,7 +166,7 @@ impl SharedCacheConfigBuilder {
             r.max_size == self.max_size && r.ttl == self.ttl && r.key_extractor == self.key_extractor && r.event_listeners == self.event_listeners && r.name == self.name,   // #keeps_every_other_setting [C10]
     //@body SharedCacheConfigBuilder::eviction_policy file=cashared
     pub fn key_extractor<F>(self, f: F) -> (r: Self)
-        ensures r.key_extractor is Some,   // #installs_a_key_extractor [C10]
+        ensures r.key_extractor == Some(wrapped::<F, KeyExtractor>(f)),   // #the_key_extractor_in_force_is_the_one_given_last [C10]
             r.max_size == self.max_size && r.ttl == self.ttl && r.eviction_policy == self.eviction_policy && r.event_listeners == self.event_listeners && r.name == self.name,   // #keeps_every_other_setting [C10]
     //@body SharedCacheConfigBuilder::key_extractor file=cashared
     pub fn name(self, name: Name) -> (r: Self)
